@@ -204,7 +204,7 @@ def engine_job(args):
     return events
 
 
-def collect(chk, tier, work, pid, clauses):
+def collect(chk, tier, work, pid, clauses, extra_events=None):
     """Run the call matrix on every engine, validate with TraceVelocity.tla, report the given clauses."""
     q = tier == "quick"
     cfg = os.path.join(work, "Velocity.cfg")
@@ -235,6 +235,8 @@ def collect(chk, tier, work, pid, clauses):
                 ev = dict(base, engine=f"move:{ev['kind']}", masses="-", zero_momentum=ev["zero_momentum"], request_ok=ev["request_ok"], detail=ev)
             out.append(ev)
         results.append(out)
+    if extra_events:
+        results.append([dict(base, **ev) if "_error" not in ev else ev for ev in extra_events])
     events = []
     for evs in results:
         for ev in evs:
